@@ -91,6 +91,13 @@ def main(argv):
     if '--tier' in argv:
         tier = argv[argv.index('--tier') + 1]
     seed = int(os.environ.get('VERIF_SEED', '0') or 0)
+    # developer safeguard: tools/seed_eval.py patches /repo for a minute while it runs the checks against a seeded change;
+    # an unrelated ./check started meanwhile waits instead of reading the patched tree
+    lock = '/tmp/verif_repo_patched.lock'
+    waited = 0
+    while os.path.exists(lock) and not os.environ.get('VERIF_SEED_EVAL') and waited < 900:
+        time.sleep(5)
+        waited += 5
     t0 = time.time()
     units = D.load_units()
     if '--show-extracted' in argv:
